@@ -629,7 +629,7 @@ pub fn policy_name(p: Policy) -> String {
     }
 }
 
-fn run_params(seed: u64, i: u64) -> (u64, Policy, u64) {
+pub fn run_params(seed: u64, i: u64) -> (u64, Policy, u64) {
     let mut r = Rng::new(crate::rng::run_seed(seed, 0x57c0_0007, i));
     // several schedules per workload: the workload changes every 4th run
     let wseed = crate::rng::run_seed(seed, 0x57c0_0001, i / 4);
@@ -851,7 +851,7 @@ fn mask_numbers(s: &str) -> String {
     out
 }
 
-fn outcome_digest(o: &Outcome) -> u64 {
+pub fn outcome_digest(o: &Outcome) -> u64 {
     let mut f = Fnv::default();
     f.u64(o.answers);
     for x in &o.log.picks {
